@@ -112,7 +112,7 @@ func runTransferStream(t *testing.T, name string, mt bool) {
 		n := 2 + r.Intn(3)
 		relay := n >= 3 && r.Chance(70)
 		w := NewWorld(t, n)
-		g := &TransferGen{w: w, r: r, stats: map[string]int{}, relay: relay, mt: mt}
+		g := &TransferGen{w: w, r: r, stats: map[string]int{}, relay: relay, mt: mt, script: i % 3}
 		g.Run(nops)
 		out.add(w, g.stats)
 	}
